@@ -51,7 +51,7 @@ PROPS = {
         design_ref="DESIGN.md section 4, C02",
     ),
     "C05": S(
-        e.C05 + [version.ver4_stdlib_api],
+        e.C05 + version.API,
         explanation="The per-call-site containment discipline behind 'extract never raises': every call in extract/extract_child/extract_iter is resolved and classified; calls that run third-party code "
                     "(unwrap_stackitem, FrameIterator stepping, contexts_active_in_frame, fill_context, elaborate_frame) must lie in a try whose handler catches Exception, does not re-raise or leave the engine loop, "
                     "and appends the exception to the list that becomes Stack.error; every pop/popleft/[0]/[-1] on the engine's queues must be dominated by a non-emptiness test (CFG must-dataflow); "
@@ -201,7 +201,7 @@ PROPS = {
         design_ref="DESIGN.md section 4, C09",
     ),
     "C18": S(
-        fmt.C18 + [version.ver4_stdlib_api],
+        fmt.C18 + version.API,
         explanation="Shape facts of the tree formatter: every prefix marker is chosen by `<ascii> if opts.ascii_only else <unicode>` with an ASCII, 2-character counterpart, the unicode->ascii map is a function across the three _format methods, unicode markers of one method are pairwise distinct, "
                     "and Frame._format recognises child-context lines by exactly the marker Context._format emits; all four visibility tests are `hide and not show_hidden` (truth tables); in every loop over a sub-component's lines each line reaches lines.append(marker + line) on every path; "
                     "every produced line is newline-terminated; format forwards its options by name and str() joins format(); contexts are rendered iff show_contexts.",
@@ -214,7 +214,7 @@ PROPS = {
         design_ref="DESIGN.md section 4, C18",
     ),
     "C19": S(
-        fmt.C19 + [version.ver4_stdlib_api],
+        fmt.C19 + version.API,
         explanation="The two summary-side visibility tests; sibling agreement between Frame._format and as_stdlib_summary_with_contexts on when the frame's own entry is omitted (truth table, addressed as contexts[-1]); "
                     "no argument of any FrameSummary construction is a frame or object graph (locals is None or a dict of repr strings) and the entries carry (filename, lineno, funcname) / the with-line; "
                     "format_flat = header, StackSummary.format() iff frames, leaf, error; every option is forwarded to the same-named parameter through the five summary methods, and a context yields own entry, inner stack, children in that order.",
@@ -227,7 +227,7 @@ PROPS = {
         design_ref="DESIGN.md section 4, C19",
     ),
     "C20": S(
-        fmt.C20 + [o.exi1_producers, version.ver1_opcodes, version.ver4_stdlib_api],
+        fmt.C20 + [o.exi1_producers, version.ver1_opcodes] + version.API,
         explanation="The trickery call is inside a try whose Exception handler warns with InspectionWarning and assigns the referents result (never re-raises), and referents is used when trickery is unavailable; the mode switch is a plain module-level global (not thread-local), "
                     "written only in set_trickery_enabled and _check_trickery_available and always under _trickery_lock; set_trickery_enabled stores its argument unchanged; _check_trickery_available returns the stored value whenever it is not None and re-tests after taking the lock; "
                     "a failing self-test warns and stores False; the referents producer filters bound __exit__/__aexit__ methods, derives is_async from the name, takes obj from __self__, appends the exiting entry last, and roots the scan at the owning generator exactly on 3.11/3.12.",
@@ -240,7 +240,7 @@ PROPS = {
         design_ref="DESIGN.md section 4, C20",
     ),
     "C17": S(
-        glue.C17 + [e.def1, version.ver4_stdlib_api],
+        glue.C17 + [e.def1] + version.API,
         explanation="Protocol of the glue installer: there is one installer function and every call of a glue function goes through it (who-may-call); both references are removed from their registries (pop) before either is called; "
                     "the two calls are the exclusive arms of one if/elif with the module-provided one first; registry accesses, the scan loop and the calls are covered by glue_lock at every call site; "
                     "failures only warn and the scan loop cannot be left early; the length cache is written after the scan, inside the lock, from the snapshot taken before it; at decoration time glue runs only under a condition implying the module is imported and is otherwise pending; "
